@@ -8,6 +8,7 @@ import BufrModel.Drv.State
 import BufrModel.Drv.BitsOp
 import BufrModel.Drv.PathOp
 import BufrModel.Drv.CoderOp
+import BufrModel.Drv.ColParseOp
 import BufrModel.Drv.ScriptOp
 import BufrModel.Drv.SectionsOp
 import BufrModel.Drv.SubsetOp
@@ -15,6 +16,10 @@ import BufrModel.Drv.TemplateOp
 import BufrModel.Drv.CacheOp
 import BufrModel.Drv.CompilerOp
 import BufrModel.Drv.TableDefOp
+import BufrModel.Drv.FlatOp
+import BufrModel.Drv.LinksOp
+import BufrModel.Drv.ViewOp
+import BufrModel.Drv.StreamOp
 open Lean Bufr.Drv
 
 /-- stateless operations: one line per op -/
@@ -32,6 +37,7 @@ def statelessOps : List (String × (Json → J Json)) :=
   ("subset", opSubset) ::
   ("normalize", opNormalize) ::
   ("cache", opCache) ::
+  ("links-spec", opLinksSpec) ::
   []
 
 /-- operations that read or change the driver state -/
@@ -51,6 +57,14 @@ def statefulOps : List (String × (DrvState → Json → J (DrvState × Json))) 
   ("tabledef-extract", TD.opTableDefExtract) ::
   ("fix-ncep", TD.opFixNcep) ::
   ("build-src", TD.opBuildSrc) ::
+  ("dec-data-flat", opDecDataFlat) ::
+  ("col-parse", opColParse) ::
+  ("wf-bitmap", opWfBitmap) ::
+  ("wire", opWire) ::
+  ("nested-json", opNestedJson) ::
+  ("to-flat", opToFlat) ::
+  ("views", opViews) ::
+  ("scan", opScan) ::
   []
 
 def dispatch (st : DrvState) (j : Json) : J (DrvState × Json) := do
